@@ -319,7 +319,7 @@ def run(ctx):
     props = check_props(ctx.pid)
     model = build_model()
     impl = build_impl()
-    budget = 7 if ctx.tier == "quick" else 8
+    budget = 6 if ctx.tier == "quick" else 8
     trees_by_line = {}
 
     def add(op, frags, mode="v"):
@@ -331,6 +331,13 @@ def run(ctx):
     cases += [add(op, fr, "u") for op, fr in undefined_cases()]
     ex = exhaustive_cases(budget)
     n_ex = len(ex)
+    n_stride = 0
+    if ctx.tier == "quick":
+        # plus every 5th case (seed-dependent phase) of the next size
+        bigger = [c for c in exhaustive_cases(budget + 1)]
+        more = bigger[ctx.seed % 5:: 5]
+        n_stride = len(more)
+        ex = ex + more
     cases += [add(wrap(op), fr) for op, fr in ex]
     nrand = 20000 if ctx.tier == "quick" else 200000
     for _ in range(nrand):
@@ -386,12 +393,13 @@ def run(ctx):
     fam = ctx.cov["families"]["c25_depth"]
     fam.update({"accepted": stats["ok"], "rejected": stats["err"], "invalid_skipped": stats["invalid"],
                 "in_known_class": stats["known"], "expanded_depth_histogram": stats["depth_hist"],
-                "exhaustive_cases": n_ex, "exhaustive_node_budget": budget, "random_cases": nrand})
+                "exhaustive_cases": n_ex, "exhaustive_node_budget": budget,
+                "strided_cases_of_next_budget": n_stride, "random_cases": nrand})
     for c, i, m in rows[:3] + rows[len(rows) // 2: len(rows) // 2 + 2] + rows[-2:]:
         ctx.sample({"family": "c25_depth", "document": unhexs(c.split(" ")[1]), "impl": i, "model": m}, limit=7)
     ctx.cov["rule"] = (
         f"every (operation, F, G) over {{possibleTypes{{..}}, ofType{{..}}, name, ... on __Type{{..}}, ...F, ...G}} with at most "
-        f"{budget} nodes in total (F may spread G; every defined fragment used), wrapped in {{ __schema {{ types {{ .. }} }} }}; "
+        f"{budget} nodes in total (quick tier: plus every 5th case with at most {budget + 1} nodes; F may spread G; every defined fragment used), wrapped in {{ __schema {{ types {{ .. }} }} }}; "
         f"{nrand} random typed trees over __Type/__Field/__InputValue with up to four fragments; hand-written boundary and "
         "undefined-spread cases.  Each document is checked as written and with all named fragments expanded inline "
         "(oracle: equal verdicts); the verdict as written is compared with the model.  Distinct by case text.")
